@@ -1112,6 +1112,12 @@ class Gen:
         for _ in range(self.r.randint(lo, hi)):
             if self.layout and self.p(0.08):
                 lines.append((self.ch(["", "# comment", "   ", "#!shebang-like", "\t", "    # indented comment"]),) * 2)
+            if self.p(0.12):
+                # a directed shape (tools/shapes.py): parameter-list sections, with-items of every expression kind, rare
+                # productions — grammar regions random generation seldom reaches (found with tools/covmap.py)
+                sh = self.ch(_shape_pool())
+                lines.extend((l, l) for l in sh.rstrip("\n").split("\n"))
+                continue
             lines.extend(self.statement(self.depth))
         text = self.nl.join(t for t, _ in lines)
         twin = self.nl.join(w for _, w in lines)
@@ -1144,6 +1150,28 @@ class Gen:
 
 # ---------------------------------------------------------------------------------------------------------
 # known-finding shape predicates (shared by the generator, which avoids them, and by classify())
+
+_SHAPES = []
+
+
+def _shape_pool():
+    """shapes valid for CPython 3.11 (PEP 695 ones need a twin text and are left to the generator's own type_params)"""
+    if not _SHAPES:
+        import ast as _ast
+        import warnings as _w
+        import shapes as _sh
+        with _w.catch_warnings():
+            _w.simplefilter("ignore")
+            for t in _sh.all_shapes():
+                if "x[*a" in t or "a[*b]" in t or " as *" in t or "as (*x" in t or "as [*x" in t or "as *x" in t:
+                    continue        # listed findings of C01 (single starred subscript, starred with-target): probed elsewhere
+                try:
+                    _ast.parse(t)
+                except SyntaxError:
+                    continue
+                _SHAPES.append(t)
+    return _SHAPES
+
 
 def _is_fpiece(lit):
     k = 0
